@@ -454,9 +454,7 @@ pub fn replay(part: &str, bytes: &[u8], case: &Value, stats: &mut Stats) -> Verd
 /// Byte-level entry for the fuzz target.
 pub fn fuzz_entry(bytes: &[u8]) -> Verdict {
     let mut st = Stats::new();
-    if bytes.first().map(|b| b & 0x80 != 0).unwrap_or(false) {
-        check_effective(bytes, &mut st)
-    } else {
-        check(bytes, &mut st)
-    }
+    // the part 'effective' builds engines and runs real searches: far too slow per execution for a
+    // coverage-guided campaign (3 executions a second in the fuzz build); it stays with proptest
+    check(bytes, &mut st)
 }
